@@ -109,13 +109,20 @@ pub fn record(pool_paths: &str, w: &mut dyn Write, seed: u64, n_events: usize) {
         } else {
             it.mp.clone()
         };
-        emitted += exec_all(w, &a, it.touch, it.general, mi, k, false);
+        emitted += exec_all(w, &a, it.touch, it.general, mi, k, false, false);
+        if k % 3 == 0 {
+            // a polygon drawn at random (star-shaped shell with notches, holes placed to touch the shell / each other): its validity is
+            // decided by the validator (ValidExact.tla), not here
+            let rp = random_polygon(&mut rng);
+            let mi2 = if k % 2 == 0 { Some(&maps[rng.gen_range(0..maps.len())]) } else { None };
+            emitted += exec_all(w, &MultiPolygon::new(vec![rp]), 0, true, mi2, k, k % 6 == 0, true);
+        }
     }
     w.flush().unwrap();
 }
 
 /// every call kind selected by `k` (all of them when `all`) on polygon `a` under exact map `mi`; returns the number of events
-fn exec_all(w: &mut dyn Write, a: &MultiPolygon<f64>, touch: i64, general: bool, mi: Option<&ExactMap>, k: usize, all: bool) -> usize {
+fn exec_all(w: &mut dyn Write, a: &MultiPolygon<f64>, touch: i64, general: bool, mi: Option<&ExactMap>, k: usize, all: bool, rand: bool) -> usize {
     let mut emitted = 0usize;
     {
         let ma = match mi { Some(m) => as_mp(&m.on(&G::MultiPolygon(a.clone()))).unwrap(), None => a.clone() };
@@ -131,10 +138,10 @@ fn exec_all(w: &mut dyn Write, a: &MultiPolygon<f64>, touch: i64, general: bool,
                 Ok(Ok(ts)) => {
                     let mut bad = false;
                     let jt = tris_json(&ts, &*back, &mut bad);
-                    json!({"ev":"tri","kind":kind,"p":jp,"tris":jt,"st":st(bad),"note":note})
+                    json!({"ev":"tri","kind":kind,"p":jp,"tris":jt,"st":st(bad),"note":note,"rand":rand})
                 }
-                Ok(Err(e)) => json!({"ev":"tri","kind":kind,"p":jp,"tris":[],"st":"error","note":format!("{note} {e}")}),
-                Err(e) => json!({"ev":"tri","kind":kind,"p":jp,"tris":[],"st":"panic","note":format!("{note} {e}")}),
+                Ok(Err(e)) => json!({"ev":"tri","kind":kind,"p":jp,"tris":[],"st":"error","note":format!("{note} {e}"),"rand":rand}),
+                Err(e) => json!({"ev":"tri","kind":kind,"p":jp,"tris":[],"st":"panic","note":format!("{note} {e}"),"rand":rand}),
             };
             writeln!(w, "{ev}").unwrap();
         };
@@ -180,9 +187,9 @@ fn exec_all(w: &mut dyn Write, a: &MultiPolygon<f64>, touch: i64, general: bool,
                 let mut bad = false;
                 let jt = tris_json(&ts, &*back, &mut bad);
                 let ev = match r {
-                    Ok(Ok(m)) => { let jr = mp_json(&m, &*back, flip, &mut bad); json!({"ev":"stitch","p":jp,"tris":jt,"r":jr,"st":st(bad),"note":note}) }
-                    Ok(Err(e)) => json!({"ev":"stitch","p":jp,"tris":jt,"r":{"ps":[]},"st":"error","note":format!("{note} {e}")}),
-                    Err(e) => json!({"ev":"stitch","p":jp,"tris":jt,"r":{"ps":[]},"st":"panic","note":format!("{note} {e}")}),
+                    Ok(Ok(m)) => { let jr = mp_json(&m, &*back, flip, &mut bad); json!({"ev":"stitch","p":jp,"tris":jt,"r":jr,"st":st(bad),"note":note,"rand":rand}) }
+                    Ok(Err(e)) => json!({"ev":"stitch","p":jp,"tris":jt,"r":{"ps":[]},"st":"error","note":format!("{note} {e}"),"rand":rand}),
+                    Err(e) => json!({"ev":"stitch","p":jp,"tris":jt,"r":{"ps":[]},"st":"panic","note":format!("{note} {e}"),"rand":rand}),
                 };
                 writeln!(w, "{ev}").unwrap();
                 emitted += 1;
@@ -207,9 +214,9 @@ fn exec_all(w: &mut dyn Write, a: &MultiPolygon<f64>, touch: i64, general: bool,
                     let mut bad = false;
                     let jpieces: Vec<Value> = pieces.iter().map(|m| json!({"top": ring_json(m.top(), &*back, false, &mut bad), "bot": ring_json(m.bot(), &*back, false, &mut bad)})).collect();
                     // x-monotonicity is a statement about the mapped coordinates: logged for the identity map only
-                    json!({"ev":"mono","p":jp,"pieces":jpieces,"hits":hits,"xmono": mi.is_none(),"st":st(bad),"note":note})
+                    json!({"ev":"mono","p":jp,"pieces":jpieces,"hits":hits,"xmono": mi.is_none(),"st":st(bad),"note":note,"rand":rand})
                 }
-                Err(e) => json!({"ev":"mono","p":jp,"pieces":[],"hits":[],"xmono":false,"st":"panic","note":format!("{note} {e}")}),
+                Err(e) => json!({"ev":"mono","p":jp,"pieces":[],"hits":[],"xmono":false,"st":"panic","note":format!("{note} {e}"),"rand":rand}),
             };
             writeln!(w, "{ev}").unwrap();
             emitted += 1;
@@ -233,7 +240,50 @@ pub fn rerun(path: &str, w: &mut dyn Write) {
         let touch: i64 = note.split("touch:").nth(1).and_then(|t| t.split_whitespace().next()).and_then(|t| t.parse().ok()).unwrap_or(1);
         let ring = |r: &Value| LineString::new(r.as_array().map(|a| a.iter().map(|c| Coord { x: c[0].as_f64().unwrap(), y: c[1].as_f64().unwrap() }).collect()).unwrap_or_default());
         let a = MultiPolygon::new(e["p"]["ps"].as_array().map(|ps| ps.iter().map(|p| Polygon::new(ring(&p["ext"]), p["holes"].as_array().map(|h| h.iter().map(|r| ring(r)).collect()).unwrap_or_default())).collect()).unwrap_or_default());
-        exec_all(w, &a, touch, note.contains("general:true"), all_maps.iter().find(|m| m.name == mname), 0, true);
+        exec_all(w, &a, touch, note.contains("general:true"), all_maps.iter().find(|m| m.name == mname), 0, true, e["rand"].as_bool().unwrap_or(false));
     }
     w.flush().unwrap();
+}
+
+/// A candidate polygon on the lattice 0..13: a star-shaped shell (vertices sorted by angle around the centre, radii drawn
+/// at random, so notches are common) with 0 - 2 small triangular or square holes, some of them moved so that one of their
+/// vertices coincides with a shell vertex, a point on a shell edge or a vertex of the other hole.  Many candidates are
+/// not valid polygons; the validator decides.
+fn random_polygon(rng: &mut StdRng) -> Polygon<f64> {
+    let n = rng.gen_range(4..11);
+    let (cx, cy) = (6.5f64, 6.5f64);
+    let mut pts: Vec<(i64, i64)> = vec![];
+    let mut tries = 0;
+    while pts.len() < n && tries < 200 {
+        tries += 1;
+        let p = (rng.gen_range(0..=13i64), rng.gen_range(0..=13i64));
+        if !pts.contains(&p) {
+            pts.push(p);
+        }
+    }
+    pts.sort_by(|a, b| {
+        let (aa, ab) = ((a.1 as f64 - cy).atan2(a.0 as f64 - cx), (b.1 as f64 - cy).atan2(b.0 as f64 - cx));
+        aa.partial_cmp(&ab).unwrap()
+    });
+    let ring = |v: &[(i64, i64)]| { let mut c: Vec<Coord<f64>> = v.iter().map(|p| Coord { x: p.0 as f64, y: p.1 as f64 }).collect(); c.push(c[0]); LineString::new(c) };
+    let nh = rng.gen_range(0..3);
+    let mut holes: Vec<Vec<(i64, i64)>> = vec![];
+    for _ in 0..nh {
+        let (x, y) = (rng.gen_range(2..11i64), rng.gen_range(2..11i64));
+        let mut h: Vec<(i64, i64)> = match rng.gen_range(0..4) {
+            0 => vec![(x, y), (x + 1, y), (x, y + 1)],
+            1 => vec![(x, y), (x + 2, y + 1), (x + 1, y + 2)],
+            2 => vec![(x, y), (x + 1, y), (x + 1, y + 1), (x, y + 1)],
+            _ => vec![(x, y), (x + 2, y), (x + 1, y + 2)],
+        };
+        // move one hole vertex onto a shell vertex / a lattice point of a shell edge / a vertex of the previous hole
+        match rng.gen_range(0..4) {
+            0 => { let t = pts[rng.gen_range(0..pts.len())]; let k = rng.gen_range(0..h.len()); h[k] = t; }
+            1 => { let i = rng.gen_range(0..pts.len()); let (a, b) = (pts[i], pts[(i + 1) % pts.len()]); if (a.0 + b.0) % 2 == 0 && (a.1 + b.1) % 2 == 0 { let k = rng.gen_range(0..h.len()); h[k] = ((a.0 + b.0) / 2, (a.1 + b.1) / 2); } }
+            2 => { if let Some(prev) = holes.last() { let t = prev[rng.gen_range(0..prev.len())]; let k = rng.gen_range(0..h.len()); h[k] = t; } }
+            _ => {}
+        }
+        holes.push(h);
+    }
+    Polygon::new(ring(&pts), holes.iter().map(|h| ring(h)).collect())
 }
